@@ -156,7 +156,10 @@ class Gen:
         rng = self.rng
         k = T[0]
         if k == "o":
-            return ("LNone", None, False)
+            # X | None with a NON-None default / default_factory half of the time: "absent -> default" must not be
+            # confused with "present and null -> None"
+            inner = self.gen_default(T[1]) if rng.random() < 0.5 else None
+            return inner if inner is not None else ("LNone", None, False)
         if k == "s":
             s = T[1]
             if s == "int":
@@ -173,6 +176,9 @@ class Gen:
                 return (f"LBool {'true' if v else 'false'}", v, False)
             v = rng.choice([0.0, -1.5])
             return (f"LFloat {float_bits(v)}", v, False)
+        if k == "e":
+            m = rng.choice(list(ENUMS[T[1] - 1]))
+            return (f"LEnum {T[1]} {coq_cps(m.name)}", m, False)
         if k == "l":
             return ("LEmptyList", list, True)
         if k == "fs":
@@ -202,9 +208,12 @@ class Gen:
                     specs.append(("binary", inner if rng.random() < 0.6 else ("o", inner)))
                 else:
                     specs.append(("plain", self.gen_type(d, hashable)))
-        for i, (kind, T) in enumerate(specs):
+        for i, spec in enumerate(specs):
+            kind, T = spec[0], spec[1]
             default = None
-            if kind == "transient":
+            if len(spec) > 2:
+                default = spec[2]
+            elif kind == "transient":
                 default = self.gen_default(T) or ("LInt (5)%Z", 5, False)
             elif kind == "plain" and rng.random() < 0.25:
                 default = self.gen_default(T)
@@ -327,15 +336,23 @@ class Gen:
             return rng.choice(BATCHES)
         raise AssertionError(T)
 
-    def gen_instance(self, cd: ClassDesc, transient_nondefault: bool = False) -> Any:
+    def gen_instance(self, cd: ClassDesc, transient_nondefault: bool = False, none_over_default: bool = False) -> Any:
+        """``none_over_default``: every ``X | None`` field that declares a non-None default is explicitly set to None."""
         kw = {}
         for f in cd.fields:
             if f.kind == "transient":
                 if transient_nondefault:
                     kw[f.name] = self.gen_value(f.T)
                 continue
+            if none_over_default and f.T[0] == "o" and f.default is not None and f.default[0] != "LNone":
+                kw[f.name] = None
+                continue
             kw[f.name] = self.gen_value(f.T)
         return cd.pycls(**kw)
+
+    @staticmethod
+    def has_optional_with_default(cd: ClassDesc) -> bool:
+        return any(f.kind != "transient" and f.T[0] == "o" and f.default is not None and f.default[0] != "LNone" for f in cd.fields)
 
     # -- Coq rendering -------------------------------------------------------------------------------------
     def coq_ty(self, T: Any) -> str:
@@ -609,6 +626,12 @@ def finding_key(gen: Gen, cd: ClassDesc, x: Any, y: Any = None, exc: BaseExcepti
         if isinstance(exc, TypeError) and "unhashable" in str(exc) and _has_set_of_nonscalar(gen, ("c", cd.cid)):
             return "frozenset-elements-not-converted-back"
         return "roundtrip-raises-" + type(exc).__name__
+    if y is not None and type(y) is type(x):
+        for f in cd.fields:
+            if f.kind != "transient" and f.default is not None and getattr(x, f.name, 0) is None and getattr(y, f.name, None) is not None:
+                dv = f.default[1]() if f.default[2] else f.default[1]
+                if deep_eq(getattr(y, f.name), dv):
+                    return "explicit-none-replaced-by-field-default"
     path = first_diff(x, y, ("c", cd.cid), gen) or ()
     for i in range(len(path) - 1, -1, -1):
         if path[i] == "fs" and i < len(path) - 1:
